@@ -8,7 +8,7 @@
     luastrings/misc.go and lib/stringlib/stringlib.go on every run; `Model.StrLib` composes them the
     way `sub`, `bytef` and `find` do, and `gosub_eq_spec` / `gobyte_eq_spec` / `gofind_start_eq_spec`
     prove that composition equal to the manual's positions for every int64 argument.
-  * what is false of the current code is stated as `…_counterexample`.
+  * `find_plain_model_eq_spec` does the same for the plain branch of matching.go's `find`.
   Lemmas live in Proofs/C19Str, C19Pos, C19Tab, C19Sort.
 -/
 import GoluaVerif.Spec.StrLib
@@ -192,18 +192,14 @@ theorem gofind_start_eq_spec (s : Bytes) (hs : s.length < 2 ^ 63) (init : I64) :
       else some (BitVec.ofNat 64 (posrelatI init.toInt s.length - 1)) :=
   C19Pos.goFindStart_eq s.length _ init (C19Pos.lenOf_toInt s hs)
 
-/-- what matching.go's plain branch returns, for every subject, pattern and init: the manual's answer with
-    `k = posrelatI(init) − 1` subtracted from both indices -/
-theorem find_plain_model_offset (s p : Bytes) (hs : s.length < 2 ^ 63) (init : I64) :
-    Model.StrLib.goFindPlain s p init =
-      (findPlain s p init.toInt).map fun (a, b) =>
-        ((a : Int) - (posrelatI init.toInt s.length - 1 : Nat), (b : Int) - (posrelatI init.toInt s.length - 1 : Nat)) :=
+/-- TIE: matching.go's plain branch (`strings.Index(s[si:], ptn)`, results `si+i+1`, `si+i+len(ptn)` in Go
+    `int` arithmetic) returns exactly what the manual prescribes, for every subject, pattern and int64 `init` -/
+theorem find_plain_model_eq_spec (s p : Bytes) (hs : s.length + 1 < 2 ^ 63) (init : I64) :
+    Model.StrLib.goFindPlain s p init = (findPlain s p init.toInt).map fun (a, b) => ((a : Int), (b : Int)) :=
   C19Pos.goFindPlain_eq s p hs init
 
-/-- …so the current code is wrong as soon as `init > 1`: `("abcabc"):find("b", 3, true)` gives 3 3, not 5 5 -/
-theorem find_plain_offset_counterexample :
-    Model.StrLib.goFindPlain [97, 98, 99, 97, 98, 99] [98] 3#64 = some (3, 3) ∧
-    findPlain [97, 98, 99, 97, 98, 99] [98] 3 = some (5, 5) := by decide
+example : ([97, 98, 99, 97, 98, 99] : Bytes).length + 1 < 2 ^ 63 := by decide
+example : Model.StrLib.goFindPlain [97, 98, 99, 97, 98, 99] [98] 3#64 = some (5, 5) := by decide
 
 /-! ## tables: insert / remove / move on any store that behaves like a table -/
 
